@@ -106,7 +106,7 @@ theorem hasEqLists_disjoint (diff : Differ) (hd : GoodDiffer diff) (fuel : Nat) 
 /-! ### Helpers -/
 
 theorem GInv.emitAll {Ref : String → Prop} {st : St} (h : GInv Ref st) (cs : List Cmd) : GInv Ref (st.emitAll cs) :=
-  ⟨h.anodup, h.bnodup, h.ane, h.fresh, h.aplain, h.bplain, h.amemnd, h.bmemnd, h.c0, h.c1, h.c2, h.c3, h.bne⟩
+  ⟨h.anodup, h.bnodup, h.ane, h.fresh, h.aplain, h.bplain, h.amemnd, h.bmemnd, h.c0, h.c1, h.c2, h.c3, h.bne, h.c4, h.c5⟩
 
 theorem SimG.emitAll {sh : Shared} {Ref : String → Prop} {st : St} {vg : Vsys} (h : SimG sh Ref st vg) (cs : List Cmd) :
     SimG sh Ref (st.emitAll cs) vg := ⟨h.U, h.K, h.anames, h.mems⟩
